@@ -239,3 +239,30 @@ def equal(a, b):
     if not conds:
         return True
     return z3.And(*conds) if len(conds) > 1 else conds[0]
+
+
+def lower(v):
+    from .lib import str_from_parts
+    ps = _parts(v)
+    if ps is None or any(isinstance(p, OpaqueStr) for p in ps):
+        return NOTFOUND
+    return str_from_parts([p.lower() if isinstance(p, str) else p for p in ps])
+
+
+def strip(v):
+    from .lib import str_from_parts
+    ps = _parts(v)
+    if ps is None or not ps:
+        return NOTFOUND if ps is None else ''
+    if isinstance(ps[0], OpaqueStr) or isinstance(ps[-1], OpaqueStr):
+        return NOTFOUND
+    ps = list(ps)
+    if isinstance(ps[0], str):
+        ps[0] = ps[0].lstrip()
+        if ps[0] == '' and len(ps) > 1 and isinstance(ps[1], OpaqueStr):
+            return NOTFOUND
+    if isinstance(ps[-1], str):
+        ps[-1] = ps[-1].rstrip()
+        if ps[-1] == '' and len(ps) > 1 and isinstance(ps[-2], OpaqueStr):
+            return NOTFOUND
+    return str_from_parts(ps)
